@@ -66,6 +66,60 @@ func configs(tier string) []conf {
 	return r
 }
 
+// qmulConfigs: the family of scale-invariant (BFV) configurations around the steps of the evaluator's
+// "how many auxiliary 61-bit primes does the integer tensor product need at this level" table
+// (newEvaluatorPrecomp: levelQMul[l] = ceil((bitlen(Q_l) + LogN)/61) - 1).
+//
+// The table is a step function of bitlen(Q_l); the register-machine configurations above sit at 120-276 bits
+// with 30/55-bit primes and never come near a step with a stressed basis. A table that provisions too few primes
+// only shows when the tensor really exceeds Q_l*QMul/2, i.e. for the largest Q_l of a plateau, for a ring large
+// enough that the sum of 2N products reaches the worst case the formula budgets for, and for primes that do not
+// hug a power of two (otherwise QMul mod Q is tiny and the wrap-around hides in the noise budget). Hence:
+//
+//   - LogN = 10, every bit length 50..61 of a single-prime chain (primes at 0.75*2^b and at 0.94*2^b) and every
+//     total bit length 110..122 of a two-prime chain (both primes at 0.75*2^b): all step positions of any
+//     "bitlen + c" rule with 0 <= c <= 11, for one and for two auxiliary primes (k = 1, 2);
+//   - LogN = 4, bitlen(Q_l) + LogN in {61k-1, .., 61k+2} for k = 1, 2 (the literal boundary of the formula);
+//   - plaintext rings smaller than the ciphertext ring (t = 17: 8 slots; t = 97: 16 slots) and equal to it
+//     (t = 12289 at LogN = 10, t = 97 at LogN = 4): LogMaxSlots != LogN is exactly where "N" and "slots" differ.
+//
+// Every ct x ct product instruction is run at every level of every chain (qmulScenario).
+func qmulConfigs() []conf {
+	var r []conf
+	add := func(logN int, t uint64, tag string, q []uint64) {
+		p := bgvu.PrimeBelow(logN, 61, 7, 10, 0) // 0.7 * 2^61: away from Q primes and from the QMul primes next to 2^61
+		name := fmt.Sprintf("qmul-logn%d-t%d-%s", logN, t, tag)
+		r = append(r, conf{bgvu.Conf{Name: name, LogN: logN, T: t, Q: q, P: []uint64{p}, NQ: len(q), NP: 1}, true})
+	}
+	two := func(logN, total int) []uint64 {
+		b0 := (total + 1) / 2
+		b1 := total - b0
+		q0 := bgvu.PrimeBelow(logN, b0, 3, 4, 0)
+		q1 := bgvu.PrimeBelow(logN, b1, 3, 4, 1) // skip 1: distinct from q0 when b0 == b1
+		return []uint64{q0, q1}
+	}
+	for _, t := range []uint64{17, 97, 12289} {
+		for b := 50; b <= 61; b++ {
+			add(10, t, fmt.Sprintf("q%d@0.75", b), []uint64{bgvu.PrimeBelow(10, b, 3, 4, 0)})
+			if b <= 60 {
+				add(10, t, fmt.Sprintf("q%d@0.94", b), []uint64{bgvu.PrimeBelow(10, b, 15, 16, 0)})
+			}
+		}
+		for total := 110; total <= 122; total++ {
+			add(10, t, fmt.Sprintf("q%d=2primes", total), two(10, total))
+		}
+	}
+	for _, t := range []uint64{17, 97} {
+		for b := 56; b <= 59; b++ {
+			add(4, t, fmt.Sprintf("q%d@0.75", b), []uint64{bgvu.PrimeBelow(4, b, 3, 4, 0)})
+		}
+		for total := 117; total <= 120; total++ {
+			add(4, t, fmt.Sprintf("q%d=2primes", total), two(4, total))
+		}
+	}
+	return r
+}
+
 // world is everything built once per scenario (parameters, keys, pristine registers). It is built lazily on
 // the first leaf of the scenario, after seeding the PRNG seam with the scenario name only, so that a replay of
 // a single leaf in a fresh process rebuilds exactly the same ciphertexts.
@@ -164,7 +218,7 @@ func getWorld(c *engine.Chooser, cf conf, scen string) *world {
 	}
 	w.init[0] = mk(w.vecs[0], w.L, 1)
 	w.init[1] = mk(w.vecs[1], w.L, 1)
-	w.init[2] = mk(w.vecs[2], w.L-1, 3%w.t)
+	w.init[2] = mk(w.vecs[2], maxInt(w.L-1, 0), 3%w.t)
 	a, b := mk(w.vecs[3], w.L, 1), mk(w.vecs[4], w.L, 1)
 	d2, err := w.evStd.MulNew(a.ct, b.ct)
 	if err != nil {
